@@ -230,8 +230,12 @@ class Ctx:
         return thorough if self.thorough else quick
 
     def violation(self, what, input_, key=None, **extra):
-        if len(self.violations) < 50:
-            self.violations.append(dict(what=what, input=input_, key=key or what, **extra))
+        # at most 50 recorded per key (a listed finding that shows often must not crowd out a different violation), 400 in all
+        k = key or what
+        self._per_key = getattr(self, '_per_key', {})
+        if self._per_key.get(k, 0) < 50 and len(self.violations) < 400:
+            self._per_key[k] = self._per_key.get(k, 0) + 1
+            self.violations.append(dict(what=what, input=input_, key=k, **extra))
         self.stats['violations_seen'] = self.stats.get('violations_seen', 0) + 1
 
     def mismatch(self, what, input_, model, impl):
